@@ -65,6 +65,14 @@ def classdef(qualname, bases=(), fields=None, abstract=False, views=None, sealed
     return d
 
 
+def module_state(modname, fields):
+    """Module-level variables that functions read and assign (`global x`): fields of a singleton pseudo-object."""
+    d = ClassDecl("module:" + modname, (), fields, False, {})
+    d.name = "module:" + modname
+    REG.classes[d.name] = d
+    return d
+
+
 def contract(qualname, params=None, returns=NoneT, **opts):
     def deco(fn):
         REG.contracts[qualname] = FuncDecl("contract", qualname, fn, params, returns, **opts)
